@@ -6,7 +6,7 @@ export CARGO_NET_OFFLINE=true
 log="$wt/verify.log"; : > "$log"
 git diff -- src/ > "$wt/patch.check.diff"
 echo "patch lines: $(wc -l < "$wt/patch.check.diff")" >> "$log"
-cargo nextest run --workspace --no-fail-fast --offline --test-threads 6 > "$wt/suite_with.log" 2>&1
+cargo nextest run --workspace --no-fail-fast --offline --test-threads 4 --build-jobs 4 > "$wt/suite_with.log" 2>&1
 grep -E "Summary|FAIL" "$wt/suite_with.log" | sort -u | head -20 >> "$log"
 cargo test --offline --test seeded_demo > "$wt/demo_with.log" 2>&1; echo "demo with change rc=$?" >> "$log"
 # (git stash is shared by all worktrees of a repository: toggle the change with apply -R instead)
